@@ -63,6 +63,7 @@ type Binding struct {
 // Instance is one inotify instance created by library code.
 type Instance struct {
 	Ord       int
+	Creator   int // id of the task that made the instance
 	FD        int
 	KeepFD    int // duplicate (>= 1000) that keeps the kernel object alive so that the library's close is fast; released asynchronously
 	Queue     []Record
@@ -491,7 +492,7 @@ func InotifyInit1(flags int) (int, error) {
 		keep = -1
 	}
 	fl, _ := unix.FcntlInt(uintptr(fd), unix.F_GETFL, 0)
-	in := &Instance{Ord: len(s.Inst), FD: fd, KeepFD: keep, Pollable: fl&unix.O_NONBLOCK != 0, Limit: s.Cfg.QueueLimit,
+	in := &Instance{Ord: len(s.Inst), Creator: ssim.Cur().ID, FD: fd, KeepFD: keep, Pollable: fl&unix.O_NONBLOCK != 0, Limit: s.Cfg.QueueLimit,
 		Coalesce: s.Cfg.Coalesce, BatchHist: make([]int, 64)}
 	in.Calls = append(in.Calls, Call{Step: step, Task: ssim.Cur().ID, Kind: "init", Wd: fd})
 	s.Inst = append(s.Inst, in)
